@@ -35,6 +35,7 @@ class Expect:
         self.id_request = False  # an id response (payload ID) is expected if allocatable
         self.wake = None  # node id whose wake-up burst this step is
         self.malformed_fw = False
+        self.labels = []
         self.ota = None  # [(next_state, [sent...])] alternatives for a firmware request
 
     def __repr__(self):
@@ -151,6 +152,8 @@ class Gateway:
                 value = None
                 if node.sleeping:
                     value = node.desired.get((cid, sub))
+                if value is not None and sub not in node.children[cid].values:
+                    exp.labels.append("req-answered-from-desired-only")
                 if value is None:
                     value = node.children[cid].values.get(sub)
                 if value is not None:
